@@ -185,6 +185,7 @@ class Engine:
         lg.addHandler(logging.NullHandler())
         lg.propagate = False
         self.lib_files()
+        self.ref_world = procs.RefWorld()
 
     def gen_plan(self, rng, config, tier, prop):
         n_libs = len(self.lib_files())
@@ -206,6 +207,20 @@ class Engine:
             else:
                 ops.append({"op": "check", "tree": t, "cls": rng.randrange(1000),
                             "via": rng.choice(["copy", "copy", "direct", "direct", "sympy", "xml"])})
+        if rng.random() < 0.3:
+            # a backend generates code for a class, the owner makes a BALANCED edit of that class (one equation or symbol
+            # out, one in: every count stays what it was), the backend is asked again - on the same tree, nothing else in
+            # between.  Whatever the backend kept from the first call must not be used for the second.
+            t = rng.randrange(n_trees)
+            at = rng.randrange(1000)
+            via = rng.choice(["sympy", "xml"])
+            what = rng.choice(["equation", "equation", "symbol"])
+            motif = [{"op": "check", "tree": t, "cls": 0, "via": via, "at": at},
+                     {"op": "remove_" + what, "tree": t, "cls": 0, "idx": rng.randrange(1000), "other": 0, "hub": False, "at": at},
+                     {"op": "add_" + what, "tree": t, "cls": 0, "idx": rng.randrange(1000), "other": 0, "hub": False, "at": at},
+                     {"op": "check", "tree": t, "cls": 0, "via": via, "at": at}]
+            pos = rng.randrange(2, len(ops) + 1)
+            ops[pos:pos] = motif
         if rng.random() < 0.4:
             ops.append({"op": "check", "tree": rng.randrange(n_trees), "cls": rng.randrange(1000), "via": "direct_last"})
         return {"lib": rng.randrange(n_libs), "ops": ops}
@@ -282,8 +297,10 @@ class Engine:
                 if i in direct_done:
                     return None
                 got = self.flat(trees[i], cls, "direct" if via == "direct_last" else via, sut_tree_mod)
-                want = self.flat(ref_tree(i), cls, "direct" if via in ("copy", "direct", "direct_last") else via,
-                                 procs.tree_module())
+                with self.ref_world:
+                    # the reference process: its own copy of the pymoca package; only the digest leaves the block
+                    want = self.flat(ref_tree(i), cls, "direct" if via in ("copy", "direct", "direct_last") else via,
+                                     procs.tree_module())
                 if via == "direct_last":
                     direct_done.add(i)
                 log.add(0, i, "check", "%s %s %s %s" % (cls, via, got[0], want[0]))
@@ -324,6 +341,9 @@ class Engine:
                     deps = [c for c in dependents if c in cur]
                     pick_from = deps if deps and op["cls"] % 10 < 7 else cur
                     cls = pick_from[(op["cls"] // 10) % len(pick_from)]
+                    if "at" in op:
+                        with_eq = [c for c in cur if get_class(rt, c).equations] or cur
+                        cls = with_eq[op["at"] % len(with_eq)]
                     viol = check(i, cls, op["via"], "explicit check", ["check", op["via"], depth[i]])
                     if viol:
                         break
@@ -332,6 +352,9 @@ class Engine:
                 pool_ = [c for c in hubs if c in cur] if op.get("hub") else cur
                 pool_ = pool_ or cur
                 cls = pool_[op["cls"] % len(pool_)]
+                if "at" in op:
+                    with_eq = [c for c in cur if get_class(rt, c).equations] or cur
+                    cls = with_eq[op["at"] % len(with_eq)]
                 node = get_class(rt, cls)
                 uniq[0] += 1
                 e = {"op": k, "class": cls, "k": uniq[0]}
